@@ -209,3 +209,34 @@ func VerifH_C03_dsa_range_checks() {
 		vr.Cover("in-range")
 	}
 }
+
+// C03: dsa.Verify over a real (toy) group — p = 263, q = 131, g = 4, x = 3 — with an
+// one-byte digest from {0x2a, 0, 0xff} and arbitrary 16-bit signed r, s: nothing outside 0 < r, s < q is
+// accepted, and some signature is (reachability of the arithmetic). Modular
+// exponentiation and inversion over these small concrete moduli are encoded exactly
+// (if-then-else tables), so a counterexample is a real forgery that replays natively.
+// verif: covers=accepted,rejected,out-of-range maxsplit=600
+func VerifH_C03_dsa_toy_group() {
+	const p, q, g, y = 263, 131, 4, 64
+	pub := &dsa.PublicKey{Y: big.NewInt(y)}
+	pub.P, pub.Q, pub.G = big.NewInt(p), big.NewInt(q), big.NewInt(g)
+	z := []byte{0x2a, 0x00, 0xff}[vr.Pick(vr.Int("digest", 0, 2))]
+	r := int64(int16(vr.U16("r")))
+	// s is case-split (every value in the thorough tier, the boundaries and a few
+	// interior points in the quick tier); r stays symbolic.
+	var s int64
+	if vr.Tier() == 1 {
+		s = int64(vr.Pick(vr.Int("s", -2, 2*p+1)))
+	} else {
+		s = []int64{-1, 0, 1, 2, 57, 100, q - 1, q, q + 1, q + 2, q + 57, 2*q - 1, p - 1, p, p + 1, 2 * p}[vr.Pick(vr.Int("s", 0, 15))]
+	}
+	ok := dsa.Verify(pub, []byte{z}, big.NewInt(r), big.NewInt(s))
+	if !(r > 0 && r < q && s > 0 && s < q) {
+		vr.Assert(!ok, "r or s outside [1, q-1] never verifies")
+		vr.Cover("out-of-range")
+	} else if ok {
+		vr.Cover("accepted")
+	} else {
+		vr.Cover("rejected")
+	}
+}
